@@ -64,6 +64,8 @@ class Evaluator:
         return ("opaque", "const:" + str(c.get("ty")))
 
     def compare(self, op, a, b):
+        if a[0] == "str" and b[0] == "str" and op in ("Eq", "Ne"):
+            return ("int", int((a[1] == b[1]) == (op == "Eq")))
         if a[0] == "int" and b[0] == "int":
             rel = (a[1] > b[1]) - (a[1] < b[1])
             return ("int", int(_cmp(op, rel)))
